@@ -333,6 +333,17 @@ def pMetas (P : Params) (S : LSchema) : Nat → R → Option (R × List Meta)
                     | none => none
                     | some (r6, ms) => some (r6, ("ietf-netconf-with-defaults:default", aval) :: ms)
 
+/-- the branch of `lyb_parse_metadata` for an annotation whose module is not in the context (no `LYD_PARSE_STRICT`):
+`lyb_skip_string` for the name and for the value, with length fields of `kn` / `kv` bytes.  The source has
+`kn = R_METASKIPNAME`, `kv = R_METASKIPVAL` (finding F331: 2 on the pinned tree, while the value is printed with `P_METAVAL = 8`) -/
+def pMetaSkipW (P : Params) (kn kv : Nat) (r : R) : R :=
+  match rdNum P r kn with
+  | (r1, nl) =>
+    match rdNum P (rread P r1 nl).1 kv with
+    | (r2, vl) => (rread P r2 vl).1
+
+def pMetaSkip (P : Params) (r : R) : R := pMetaSkipW P R_METASKIPNAME R_METASKIPVAL r
+
 def pHeader (P : Params) (S : LSchema) (r : R) : Option (R × List Meta × Flags) :=
   match rdNum P r R_METACOUNT with
   | (r1, cnt) =>
